@@ -101,12 +101,32 @@ async def one_case(case):
                 rp.parent.mkdir(parents=True, exist_ok=True)
                 n = {'shorter': max(len(v) - 3, 0), 'equal': len(v), 'longer': len(v) + 37}[pre]
                 rp.write_bytes(b'\xAA' * n)
+        bystanders = {}
+        if case.get('bystanders'):
+            # unrelated files that already live in the target next to the files to be restored, under names a restore might want for
+            # its own scratch work: "pre-existing files elsewhere are untouched"
+            for k in expected:
+                rp = lib.restored_path(target, k)
+                rp.parent.mkdir(parents=True, exist_ok=True)
+                for j, nm in enumerate((rp.name + '.part', rp.name + '.tmp', rp.name + '.partial', rp.name + '.bak', rp.name + '~',
+                                        '.' + rp.name + '.swp', '.' + rp.name + '.tmp', rp.name + '.download', rp.name + '.new')):
+                    q = rp.with_name(nm)
+                    if str(q.resolve()) in {str(lib.restored_path(target, e).resolve()) for e in expected}:
+                        continue
+                    q.write_bytes(b'bystander %d of %s' % (j, rp.name.encode('utf-8', 'surrogateescape')))
+                    bystanders[str(q.resolve())] = q.read_bytes()
         r2 = await repo.open()
         with lib.quiet():
             res = await r2.restore(path=target)
         await r2.close()
         got = lib.tree_files(target)
         problems = []
+        for q, v in bystanders.items():
+            if q not in got:
+                problems.append({'path': q, 'problem': 'an unrelated pre-existing file of the target vanished'})
+            elif Path(q).read_bytes() != v:
+                problems.append({'path': q, 'problem': 'an unrelated pre-existing file of the target was changed'})
+        got = [g for g in got if g not in bystanders]
         for k, v in expected.items():
             rp = lib.restored_path(target, k).resolve()
             if str(rp) not in got:
@@ -189,6 +209,11 @@ def cases(tier, seed):
             out.append(dict(base, min=mn, max=mx, sizes=[sz, 3]))
     for conc in (1, 5):
         out.append(dict(base, sizes=[200, 3, 0, 77], concurrent=conc, encrypted=True))
+    # names that look like somebody's scratch files next to the file they would belong to, and bystanders of such names in the target
+    out.append(dict(base, sizes=[300, 120, 80, 60, 40], names=['report', 'report.part', 'report.tmp', 'report~', '.report.swp']))
+    out.append(dict(base, sizes=[300, 120], names=['report.part', 'report'], concurrent=1))
+    out.append(dict(base, sizes=[200, 0, 90], bystanders=True))
+    out.append(dict(base, sizes=[200, 90], bystanders=True, pre='longer'))
     # non-ASCII names, nested directories
     out.append(dict(base, sizes=[12, 40], names=['naïve 文.bin', 'sp ace.tmp'], nested=True))
     # names that are NOT valid UTF-8 (Latin-1 / Shift-JIS bytes: Python hands them out with surrogate escapes), plain and encrypted
